@@ -35,8 +35,8 @@ fn step_done<const L: usize>() {
     ref_canon(&data[..], pre, &mut exp);
     let out = h.done().finalize();
     let got = Pack::<1>::from_bytes(&out);
-    kani::cover!(pre && L > 0 && data[0] == b'\n', "CR | LF split across chunks");
-    kani::cover!(L > 0 && data[L - 1] == b'\r', "chunk ends in CR");
+    kani::cover!(pre && L > 0 && data[0] == b'\n', "maybe: CR | LF split across chunks");
+    kani::cover!(L > 0 && data[L - 1] == b'\r', "maybe: chunk ends in CR");
     assert!(got.len == exp.len, "C14 hasher: canonical length differs from reference");
     assert!(got.same(&exp), "C14 hasher: canonical bytes differ from reference");
 }
